@@ -49,6 +49,10 @@ func TestEnumSmall(t *testing.T) {
 	collEnum.SetExhaustive(true)
 }
 
+var collDuring = vkit.NewCollector("C11", "TestReplayWhileAppending", "memory store (streaming or paged, batch 0/7/1000) with 0-20000 stored events; a goroutine appends 1-40 more (directly or by publishing through the bus) while 1-6 replays run from a start offset (oldest, middle or end of the initial log); then, with the log at rest, one more replay from the same offset. Oracle: an overlapping replay delivers a gap-free in-order prefix containing at least everything stored when it began; the replay over the quiescent log delivers every stored event after the offset and returns nil. Non-trivial = at least 50 events stored before the overlap.")
+
+func TestReplayWhileAppending(t *testing.T) { vkit.Check(t, collDuring, GenDuring, RunDuring) }
+
 func TestKnownProbes(t *testing.T) {
 	if v := collProbe.Judge(Probes().Viol); v != nil {
 		vkit.SaveFail("C11", "TestKnownProbes", map[string]string{"probe": v.Sig}, v)
@@ -58,5 +62,5 @@ func TestKnownProbes(t *testing.T) {
 
 func TestReplay(t *testing.T) {
 	r := vkit.NeedReplay(t)
-	_ = vkit.ReplayCase(t, r, collEnum, Run) || vkit.ReplayCase(t, r, collMem, Run) || vkit.ReplayCase(t, r, collSQL, Run) || vkit.ReplayCase(t, r, collDS, Run)
+	_ = vkit.ReplayCase(t, r, collEnum, Run) || vkit.ReplayCase(t, r, collMem, Run) || vkit.ReplayCase(t, r, collSQL, Run) || vkit.ReplayCase(t, r, collDS, Run) || vkit.ReplayCase(t, r, collDuring, RunDuring)
 }
